@@ -1,0 +1,30 @@
+//go:build verif
+
+// Package verifhooks re-exports internal/mobius for the external verification harness.
+// It is only compiled with the build tag "verif".
+package verifhooks
+
+import (
+	"github.com/jhalter/mobius/hotline"
+	"github.com/jhalter/mobius/internal/mobius"
+)
+
+type (
+	YAMLAccountManager = mobius.YAMLAccountManager
+	FlatNews           = mobius.FlatNews
+	ThreadedNewsYAML   = mobius.ThreadedNewsYAML
+	BanFile            = mobius.BanFile
+	Agreement          = mobius.Agreement
+)
+
+var (
+	NewYAMLAccountManager = mobius.NewYAMLAccountManager
+	NewFlatNews           = mobius.NewFlatNews
+	NewThreadedNewsYAML   = mobius.NewThreadedNewsYAML
+	NewBanFile            = mobius.NewBanFile
+	NewAgreement          = mobius.NewAgreement
+	LoadConfig            = mobius.LoadConfig
+	NewLogger             = mobius.NewLogger
+)
+
+func RegisterHandlers(s *hotline.Server) { mobius.RegisterHandlers(s) }
